@@ -328,6 +328,28 @@ pub mod bi {
         sm3.extend_from_slice(&[0x5A, 0x18, 3, 0, 0, 1, 0, 0x9D, 1, 0, 0, 0xF0, 0x0E, 0x0F, 0, 0, 0, 0, 0]);
         vec![enc_smbios(2, 8, &sm), enc_smbios(3, 0, &sm3)]
     }
+    /// Blob contents with an inner structure of their own (a parser that understands them could cut them): an SMBIOS
+    /// structure table (types 0, 1, 127 with string sets) and a DHCP ACK, each exact and with bytes behind their own end.
+    pub fn structured_blobs() -> Vec<(&'static str, Vec<u8>)> {
+        let mut t = vec![0u8, 0x18, 0x00, 0x00, 1, 2, 0x00, 0xE8, 3, 0, 0, 0, 0, 0, 0, 0, 0, 0, 0, 0, 0, 0, 0, 0];
+        t.extend_from_slice(b"SeaBIOS\0rel-1.16.2\004/01/2014\0\0");
+        t.extend_from_slice(&[1, 0x1B, 0x00, 0x01, 1, 2, 3, 0, 0, 0, 0, 0, 0, 0, 0, 0, 0, 0, 0, 0, 0, 0, 0, 0, 6, 0, 0]);
+        t.extend_from_slice(b"QEMU\0Standard PC\0pc-i440fx\0\0");
+        t.extend_from_slice(&[127, 4, 0x00, 0x7F, 0, 0]);
+        let mut t2 = t.clone();
+        t2.extend_from_slice(&[0xEE, 0x00, 0x55, 0xAA, 0, 0, 0, 1]);
+        let minimal = vec![127u8, 4, 2, 0, 0, 0, 0xEE];
+        let mut pkt = vec![0u8; 236];
+        pkt[0] = 2;
+        pkt[1] = 1;
+        pkt[2] = 6;
+        pkt[16..20].copy_from_slice(&[10, 0, 2, 15]);
+        pkt[28..34].copy_from_slice(&[0x52, 0x54, 0x00, 0x12, 0x34, 0x56]);
+        pkt.extend_from_slice(&[99, 130, 83, 99, 53, 1, 5, 54, 4, 10, 0, 2, 2, 1, 4, 255, 255, 255, 0, 255]);
+        let mut pkt2 = pkt.clone();
+        pkt2.resize(300, 0);
+        vec![("SMBIOS structure table", t), ("SMBIOS structure table + 8 bytes", t2), ("end-of-table structure + 1 byte", minimal), ("DHCP ACK ending at END", pkt), ("DHCP ACK padded to 300 bytes", pkt2)]
+    }
     pub fn enc_rsdp1(checksum: u8, oem: &[u8; 6], revision: u8, rsdt: u32) -> Vec<u8> {
         let mut b = Vec::new();
         b.extend_from_slice(b"RSD PTR ");
